@@ -114,7 +114,7 @@ namespace ratio
                         if (mcs_usage > c_capacity)
                         { // we have a new mcs..
                             std::set<atom *> mcs(c_mcs.cbegin(), c_mcs.cend());
-                            if (!rr_flaws.count(mcs))
+                            if (mcs.size() > 1 && !rr_flaws.count(mcs))
                             { // we create a new reusable-resource flaw..
                                 rr_flaw *flw = new rr_flaw(*this, mcs);
                                 rr_flaws.insert({mcs, flw});
@@ -122,7 +122,14 @@ namespace ratio
                             }
 
                             std::vector<std::pair<lit, double>> choices;
-                            for (const auto &as : combinations(std::vector<atom *>(c_mcs.cbegin(), c_mcs.cend()), 2))
+                            if (c_mcs.size() == 1)
+                            { // a single atom requires more than the capacity of the resource: the only way out is moving the atom to another resource..
+                                expr a_tau = c_mcs.front()->get(TAU);
+                                if (var_item *a_tau_itm = dynamic_cast<var_item *>(&*a_tau))
+                                    if (get_solver().get_sat_core().value(get_solver().get_ov_theory().allows(a_tau_itm->ev, *rr)) == Undefined)
+                                        choices.emplace_back(!get_solver().get_ov_theory().allows(a_tau_itm->ev, *rr), 0.);
+                            }
+                            for (const auto &as : c_mcs.size() > 1 ? combinations(std::vector<atom *>(c_mcs.cbegin(), c_mcs.cend()), 2) : std::vector<std::vector<atom *>>())
                             {
                                 arith_expr a0_start = as[0]->get(RATIO_START);
                                 arith_expr a0_end = as[0]->get(RATIO_END);
